@@ -615,6 +615,9 @@ func (streamSetSelf *StreamSetForInterfaceDef) Union(input *StreamSetForInterfac
 			}
 			v = v.(*StreamForInterfaceDef).Extend(v2.(*StreamForInterfaceDef))
 			(result.SetForInterfaceDef)[k] = v
+		} else if ok {
+			// The other side has nothing under this key: keep our own stream
+			(result.SetForInterfaceDef)[k] = v
 		}
 	}
 
